@@ -600,6 +600,12 @@ class ProgGen(object):
                     return un('cardinality', var(r.choice(c)[0]))
                 op = '+'
             if op == 'neg':
+                if r.random() < 0.3:
+                    c = self.vars_of(lambda t: isinstance(t, tuple))
+                    self.stats['unary-over-unary'] = self.stats.get('unary-over-unary', 0) + 1
+                    if c and r.random() < 0.6:
+                        return un('-', un('cardinality', var(r.choice(c)[0])))
+                    return un('-', un('-', self.expr(INT, depth - 1, selected_kind)))
                 return un('-', self.expr(INT, depth - 1, selected_kind))
             return bin_(op, self.expr(INT, depth - 1, selected_kind), self.expr(INT, depth - 1, selected_kind))
         if ty == STR:
@@ -616,6 +622,13 @@ class ProgGen(object):
         if op in ('and', 'or'):
             return bin_(op, self.expr(BOOL, depth - 1, selected_kind), self.expr(BOOL, depth - 1, selected_kind))
         if op == 'not':
+            if r.random() < 0.3:
+                # a unary operator directly over another one
+                c = self.vars_of(lambda t: isinstance(t, tuple))
+                self.stats['unary-over-unary'] = self.stats.get('unary-over-unary', 0) + 1
+                if c and r.random() < 0.7:
+                    return un('not', un(r.choice(('empty', 'not_empty')), var(r.choice(c)[0])))
+                return un('not', un('not', self.expr(BOOL, depth - 1, selected_kind)))
             return un('not', self.expr(BOOL, depth - 1, selected_kind))
         if op == 'streq':
             return bin_(r.choice(('==', '!=')), self.expr(STR, depth - 1, selected_kind),
